@@ -79,8 +79,8 @@ def run(ctx, config='rel-all'):
                 p = db.callee_path(t) or ''
                 if p in panicsafe.HOLE_CALLS or p == 'core::ptr::drop_in_place':
                     has_hole = True
-                if p in ('core::mem::forget', 'core::mem::manually_drop::ManuallyDrop::<T>::new') or p.endswith('::into_raw'):
-                    calls_handoff = True
+                if p in ('core::mem::forget', 'core::mem::manually_drop::ManuallyDrop::<T>::new') or p.endswith('::into_raw') or (p.endswith('::leak') and 'boxed::Box' in p):
+                    calls_handoff = True        # the owner is given up by value: what is moved out afterwards belongs to nobody else
         if not has_hole:
             continue
         nfun += 1
